@@ -23,6 +23,7 @@ from .seed import DEFAULT_SEED, Streams, digest, run_seed
 from .shrink import Shrinker
 
 VERIF = os.path.dirname(os.path.dirname(os.path.abspath(__file__)))
+DIGEST_CAP = 3000000
 OUT = os.environ.get("DSIM_OUT") or VERIF  # evidence/ and replays/ go here (self-tests redirect it)
 PROPS = {
     "C04": "c04_run_containment", "C05": "c05_parser_reuse", "C06": "c06_format_builder",
@@ -129,7 +130,11 @@ def _merge(total, part):
         d = total.setdefault(k, {})
         for a, b in part[k].items():
             d[a] = d.get(a, 0) + b
-    total.setdefault("digests", set()).update(part["digests"])
+    dg = total.setdefault("digests", set())
+    if len(dg) < DIGEST_CAP:  # beyond the cap the count of distinct digests is a lower bound
+        dg.update(part["digests"])
+    else:
+        total["digests_capped"] = True
     total.setdefault("states", set()).update(part["states"])
     total.setdefault("samples", []).extend(part["samples"])
     total.setdefault("audit", {}).update(part["audit"])
@@ -242,7 +247,8 @@ def write_evidence(prop, h, tier, verif_seed, total, wall, audit, known_hit, n_u
     cov = {
         "evaluations": total.get("evaluations", 0),
         "distinct_nontrivial": len(total.get("digests", ())),
-        "rule": info.get("rule", ""),
+        "rule": info.get("rule", "") + (" [distinct_nontrivial is a lower bound: digest set capped at %d]" % DIGEST_CAP
+                                          if total.get("digests_capped") else ""),
         "samples": samples,
         "seeded_runs": runs,
         "seeds": {"verif_seed": verif_seed, "first_run_index": 0, "last_run_index": runs - 1},
